@@ -194,6 +194,7 @@ def run_oracles(si, sm, viol, cover):
     pac = {}
     gen = defaultdict(int)
     hnd = {}
+    stashed_ever = {}
     n = min(len(si["lines"]), len(sm["lines"]))
     for k in range(n):
         li, lm = si["lines"][k], sm["lines"][k]
@@ -462,6 +463,11 @@ def run_oracles(si, sm, viol, cover):
                         viol("C02", None, "unreachable object %d survived two finish_cycle calls undestructed" % x, k)
                     if x not in W_post:
                         viol("C02", None, "object %d is unreachable and not weakly referenced from a reachable object, but its block is still allocated after two finish_cycle calls" % x, k)
+                    # C14: "... and becomes collectable once the last such handle is dropped"
+                    if x in stashed_ever.get((a, gen[a]), ()) and not any(v[0] == a and v[1] == gen[a] and v[3] == x for v in hnd.values()) \
+                            and h.alloc[x] in TAGGED and x not in h.dropped:
+                        viol("C14", None, "object %d was stashed, every DynamicRoot handle for it has been dropped and nothing else reaches it, "
+                                          "but it survived two finish_cycle calls undestructed (it never becomes collectable)" % x, k)
                 for x in R_post:
                     if x in h.dropped:
                         viol("C01", None, "reachable object %d was destructed" % x, k)
@@ -544,6 +550,7 @@ def run_oracles(si, sm, viol, cover):
         if o[:2] == ["m", "stash"] and not skipped:
             cover["C14:stash:phase%s" % (pre.get("p") if pre else "?")] += 1
             hnd[int(o[2])] = (a, gen[a], li.out[1], li.out[2])
+            stashed_ever.setdefault((a, gen[a]), set()).add(li.out[2])
         if o[0] == "cloneh" and not skipped and int(o[2]) in hnd:
             hnd[int(o[1])] = hnd[int(o[2])]
         if o[0] == "droph" and not skipped:
